@@ -298,6 +298,13 @@ class TableFacts(object):
                                         % (f.qualname, s, value))
                 if not isinstance(value, str):
                     raise AnalysisError("%s returns %r for status %s" % (f.qualname, value, s))
+                # a test the enumerator cannot give a meaning to: the states that generate the
+                # name are then unknown, and any verdict on the tables would be a guess
+                for atom, _v in decisions:
+                    if atom and atom[0] == "opaque":
+                        raise AnalysisError(
+                            "%s decides the event name on %s, which is not one of the state "
+                            "predicates the analysis understands" % (f.qualname, atom[1]))
                 lv.append((value, decisions))
             out[s] = lv
         self._leaves[which] = out
